@@ -79,6 +79,7 @@ type Engine struct {
 	vclock           *big.Int // virtual clock for timers of concrete duration
 	initStart        int
 	ShardIdx, ShardN int
+	reflTypes        map[string]*reflTypeV
 	shardUsed        bool
 
 	globals  map[*ssa.Global]*value
